@@ -75,7 +75,7 @@ def run(ctx):
     if not mok:
         problems.append(("T", "model extraction/driver build failed: " + mexe[-1200:]))
     d = L.work("C03")
-    n = 8000 if ctx.tier == "quick" else 60000
+    n = 8000 if ctx.tier == "quick" else 150000
     only = None
     if ctx.replay:
         try:
